@@ -852,6 +852,7 @@ uint64_t rare_points() {
 
 const ::std::vector<::std::string> kStallPoints = {
     "fut:value_constructed", "fut:sealed", "fut:on_finish_before_cas", "fut:on_finish_lost_to_sealed", "fut:waiter_registered",
+    "fut:before_waiter_register",  // proposed in hooks_proposed/C08.diff (never hit without it)
     "futex:before_wait", "futex:before_wake", "c08:S:before_wait", "c08:S:before_wake", "c08:cv:before_wait", "c08:cv:before_wake",
     "cb:c08_mid"};
 
